@@ -158,6 +158,9 @@ def judge_valid(c, op, cfg, raw):
         for j in range(m + 1 - i):
             v = det_j_exact(d, c["rows"], F(i, m), F(j, m))
             worst = v if worst is None or v < worst else worst
+    if d == 1 and bool(verdict) != (worst > 0):
+        # a linear triangle: det J is the constant (P1 - P0) x (P2 - P0); valid iff it is positive (exact on exact data)
+        return "linear triangle with det J = %s reported %s" % (float(worst), "valid" if verdict else "invalid")
     if verdict and worst <= 0:
         return "reported valid but det J = %s <= 0 at a grid point" % float(worst)
     # completeness with a clear margin (quadratics: exact certificate): a triangle whose Jacobian is positive everywhere, by at least
